@@ -38,8 +38,8 @@ def run(ctx):
     navis.set_loggers('ERROR')
     navis.set_pbars(hide=True)
     rng = ctx.rng
-    N = ctx.n(260, 4000)
-    nmax = ctx.n(40, 150)
+    N = ctx.n(260, 2500)
+    nmax = ctx.n(40, 90)      # (150-node forests made single Coq shards run for a quarter of an hour in the thorough tier)
     jobs = []   # each: dict(desc, exprs=[...], compare=callable(results)->None)
     for ci in range(N):
         # node id 0 is a valid id (and a falsy one): a quarter of the cases carry it, mostly near the root so that it lies on walks to the root
